@@ -485,12 +485,15 @@ def stream_active_malformed(chk, i, rng):
         got = [int(v) for v in est.find_active_points(X.copy())]
         err = None
     except (ValueError, IndexError) as e:
-        got, err = None, type(e).__name__
+        got, err = None, ("V" if isinstance(e, ValueError) else "I")
     if tag == "O":
         if err is not None or got != mod or got != spec_active(cpl, X):
             chk.fail("active_points:narrow-data", f"find_active_points on {cols} columns: impl={got or err}, model={mod}", replay)
     elif err is None:
         chk.fail("active_points:narrow-data-silent", f"data lacks a used feature column (model: {'ValueError' if tag == 'V' else 'IndexError'}) but find_active_points answered {got}", replay)
+    elif err != tag:
+        chk.fail("active_points:narrow-data-error-kind", f"data lacks a used feature column: the model (as the source reads) raises {'ValueError' if tag == 'V' else 'IndexError'}, "
+                 f"the implementation raised {'ValueError' if err == 'V' else 'IndexError'}", replay)
     chk.dist[f"active-malformed:{tag}"] += 1
     chk.count(("activemal", d, tuple(used), cols) if tag != "O" else None)
 
